@@ -1,24 +1,31 @@
 """
 C12 — results do not depend on how the OS splits reads and writes.
 
-Proof: lean/Sqfs/Props/C12.lean over the model lean/Sqfs/Model/IoLoops.lean (retry loops of file.c / ostream.c /
-unix.c, the buffered file istream, sqfs_istream_read/skip/splice, istream_get_line, record_to_memory), for every
-OS script of short counts / EINTR / hard errors.
+Proof: lean/Sqfs/Props/C12.lean over the models lean/Sqfs/Model/{IoLoops,XfrmStream,C12TarStream}.lean (retry loops of
+file.c / ostream.c / unix.c, the buffered file istream, sqfs_istream_read/skip/splice, istream_get_line,
+record_to_memory, the transforming streams of lib/xfrm, the member stream of the tar iterator and the head of it_next),
+for every OS script of short counts / EINTR / hard errors.
 
 Tie (a), in process: harness/h_c12.c links the real sources of the working tree; read/write/pread/pwrite/lseek/
 ftruncate/fsync are redirected at link time (--wrap) to functions that answer from the scenario's OS script and
 serve the data from memory.  The same scenario lines go to `sqfsmodel c12`; outputs (status, bytes, private
-stream state, number of script events consumed, the call-by-call trace) are diffed.  The istream buffer size is
-read from the code (`bufsz` op); additional builds of the *same* istream.c with only the BUFSZ constant changed
-(1, 7, 64) make every buffer boundary reachable with byte-sized chunks.
+stream state, number of script events consumed, the call-by-call trace) are diffed as strings.  The buffer sizes are
+read from the code (`bufsz`/`xbufsz` ops); additional builds of the *same* istream.c / xfrm istream.c / xfrm ostream.c
+with only the BUFSZ constants changed (1, 7, 64) make every buffer boundary reachable with byte-sized chunks — the
+check fails (CheckFailure) when such a build cannot be made or does not have the wanted sizes.  The harness processes
+hand the streams descriptors of different kinds (FDTYPES), since no data flows through them anyway.
 The property itself is evaluated on the implementation: the run under a script of short counts/EINTRs must
-equal the implementation's own run under the empty script, and must equal the ideal-stream specification
-(`sqfsmodel c12 spec`); under hard errors "status 0 ⇒ complete transfer" is checked by an independent monitor.
+equal the implementation's own run under the empty script, the ideal-stream specification (`sqfsmodel c12 spec`)
+and, for line readers, the byte-at-a-time scanner (`lines`); under hard errors "status 0 ⇒ complete transfer" is
+checked by independent monitors; for tar members an independent monitor recomputes the expanded member content.
 
 Tie (b), tool level: harness/shim_io.c (LD_PRELOAD: seeded short counts and EINTR on read/write/pread/pwrite)
-on un-sanitized builds of gensquashfs, tar2sqfs, sqfs2tar, rdsquashfs plus a pipe feeder that delivers stdin in
+on un-sanitized builds of gensquashfs, tar2sqfs, sqfs2tar, rdsquashfs plus a pipe/socket feeder that delivers stdin in
 chunks down to one byte and drains stdout slowly; sha256 of the image / archive / unpacked tree and the exit
 status must equal the unperturbed run's.
+
+Every part has a floor: a part that evaluated nothing (or too little) raises CheckFailure, which tools/check reports as
+a violation — never a pass.
 """
 import hashlib, io, json, os, re, subprocess, tarfile, threading, time
 import vlib
@@ -30,16 +37,22 @@ REQUIRED = ["Sqfs.C12.read_at_spec", "Sqfs.C12.read_at_never_short", "Sqfs.C12.w
             "Sqfs.C12.write_at_never_short", "Sqfs.C12.write_all_spec", "Sqfs.C12.write_all_never_short",
             "Sqfs.C12.istream_bytes", "Sqfs.C12.client_history_script_independent", "Sqfs.C12.read_skip_splice_spec",
             "Sqfs.C12.get_line_chunking_independent", "Sqfs.C12.record_to_memory_spec",
-            "Sqfs.C12.xfrm_istream_chunking_independent", "Sqfs.C12.xfrm_ostream_script_independent"]
+            "Sqfs.C12.xfrm_istream_chunking_independent", "Sqfs.C12.xfrm_ostream_script_independent",
+            "Sqfs.C12.tar_member_stream_chunking_independent", "Sqfs.C12.tar_member_run_chunking_independent",
+            "Sqfs.C12.tar_member_run_decompressed_chunking_independent"]
 WRAP = ["read", "write", "pread", "pwrite", "pread64", "pwrite64", "lseek", "lseek64", "ftruncate", "ftruncate64", "fsync"]
 ISTREAM_C = "lib/sqfs/src/io/istream.c"
 OSTREAM_C = "lib/sqfs/src/io/ostream.c"
 XISTREAM_C = "lib/xfrm/src/istream.c"
 XOSTREAM_C = "lib/xfrm/src/ostream.c"
+TARITER_C = "lib/tar/src/iterator.c"
 SMALL_B = [1, 7, 64]
 # buffer sizes of the xfrm istream / ostream in the small-buffer builds (same source text, BUFSZ replaced)
 SMALL_BX = {1: (4, 2), 7: (16, 16), 64: (23, 9)}
-HARNESS_SRC = ["h_c12.c", "h_c12_peek_istream.c", "h_c12_peek_ostream.c", "h_c12_peek_xistream.c", "h_c12_peek_xostream.c"]
+HARNESS_SRC = ["h_c12.c", "h_c12_peek_istream.c", "h_c12_peek_ostream.c", "h_c12_peek_xistream.c", "h_c12_peek_xostream.c",
+               "h_c12_peek_tar.c"]
+FDTYPES = "npsft"        # what the stream descriptors of a harness process are: /dev/null, pipe, socket, regular file, pty
+LONG_BURSTS = [65, 66, 100, 130, 300]   # EINTR runs longer than any plausible retry cap (64, 100, 128, 256)
 def _const(name, default):
     """value of a generated constant (lean/Sqfs/Generated/Consts.lean is rewritten from the headers on every run)"""
     try:
@@ -50,7 +63,7 @@ def _const(name, default):
 
 
 ERR_COMPRESSOR = _const("errCompressor", 3)   # to recognise codec errors of the toy codec in a monitor
-STREAMK = ("istream", "xistream", "xostream")
+STREAMK = ("istream", "xistream", "xostream", "tarstrm", "xtarstrm")
 HARNESS_TIMEOUT = 600     # seconds per harness process; an idle machine needs < 5 s (quick) / < 60 s (thorough)
 
 
@@ -91,6 +104,8 @@ def gen_data(seed, n, mode):
 
 
 def parse_data(t):
+    if "+" in t:
+        return b"".join(parse_data(x) for x in t.split("+"))
     if t == "-":
         return b""
     if t.startswith("g"):
@@ -122,6 +137,10 @@ def gen_script(rng, nmax, kbig, hard):
             sc.append("p%d" % k)
         else:
             sc.extend(["i"] * rng.choice([1, 1, 2, 5]))
+    if rng.random() < 0.04:
+        # an EINTR run longer than any plausible retry cap; at the very first call in a third of the cases
+        pos = 0 if rng.random() < 0.35 else rng.randint(0, len(sc))
+        sc[pos:pos] = ["i"] * rng.choice(LONG_BURSTS)
     if hard and (sc or rng.random() < 0.5):
         pos = rng.randint(0, len(sc))
         sc.insert(pos, rng.choice(["e", "z"]))
@@ -191,7 +210,14 @@ def gen_ostream(rng, big):
         ops.append("f")
     fl = rng.choice("sn")
     hard = rng.random() < 0.25
+    if not big and rng.random() < 0.12:
+        # a client that keeps calling after a failure (compares the state a failed call leaves behind, e.g. the
+        # descriptor position after a failed ftruncate); always with a hard event
+        fl, hard = fl.upper(), True
+        ops += [rng.choice(["f", "h%d" % rng.randint(0, 9), "d" + hexdata(small_data(rng, 4))]) for _ in range(rng.randint(1, 3))]
     sc = gen_script(rng, 30, 1100 if not big else 70000, hard)
+    if fl in "SN" and not is_hard(sc):
+        sc.insert(rng.randint(0, len(sc)), "e")
     o = ",".join(ops) if ops else "-"
     return {"kind": "ostream", "B": 0, "script": sc, "line": "ostream %s %s %s" % (fl, o, script_tok(sc)),
             "full": "ostream %s %s -" % (fl, o), "args": (fl, ops)}
@@ -237,9 +263,10 @@ def gen_istream(rng, B, big):
             elif r < 0.5:
                 ops.append("R%d" % sz)
             elif r < 0.6:
-                ops.append("S%d" % sz)
+                # sqfs_istream_skip takes a 64-bit count, splice a 32-bit one that is clamped to 0x7FFFFFFF
+                ops.append("S%d" % (sz if rng.random() < 0.9 else rng.choice([0x7FFFFFFF, 0x80000000, 0xFFFFFFFF, 1 << 40])))
             elif r < 0.75:
-                ops.append("P%d" % sz)
+                ops.append("P%d" % (sz if rng.random() < 0.9 else rng.choice([0x7FFFFFFF, 0x80000000, 0xFFFFFFFF])))
             elif r < 0.9:
                 ops.append("L%d" % rng.randint(0, 7))
             else:
@@ -248,9 +275,102 @@ def gen_istream(rng, B, big):
     hard = rng.random() < 0.2
     sc = gen_script(rng, 40 if not big else 120, (B if B > 8 else 8) if not big else B, hard)
     o = ",".join(ops)
-    return {"kind": "istream", "B": B, "script": sc,
-            "line": "istream %d %s %s %s %s" % (B, fl, d, o, script_tok(sc)),
-            "full": "istream %d %s %s %s -" % (B, fl, d, o), "spec": "spec %d %s %s" % (B, d, o), "args": (d, ops)}
+    r = {"kind": "istream", "B": B, "script": sc,
+         "line": "istream %d %s %s %s %s" % (B, fl, d, o, script_tok(sc)),
+         "full": "istream %d %s %s %s -" % (B, fl, d, o), "spec": "spec %d %s %s" % (B, d, o), "args": (d, ops)}
+    if all(x[0] == "L" for x in ops):
+        # a pure line reader: also against the byte-at-a-time scanner Spec.nextLine (no stream, no buffer size)
+        r["lines"] = "lines %s %s" % (",".join(x[1:] for x in ops), d)
+    return r
+
+
+def expand_member(record, filesize, sparse):
+    """the content tar2sqfs must see for a member: data regions from the record back to back, zeros elsewhere"""
+    if not sparse:
+        return record[:filesize]
+    out = bytearray(filesize)
+    pos = 0
+    for off, cnt in sparse:
+        chunk = record[pos:pos + cnt]
+        pos += cnt
+        if off < filesize:
+            out[off:off + len(chunk)] = chunk[:max(0, filesize - off)]
+    return bytes(out)
+
+
+def gen_tarstrm(rng, B, big, BX=None):
+    """one archive member (plain or old-GNU sparse) read through the real tar iterator's member stream; with BX the
+    archive stream is the transforming istream (pass-through codec) on top of the file istream"""
+    sparse = []
+    if rng.random() < 0.6:
+        # sorted, non-overlapping data regions; holes around the 4096-byte zero window of the member stream
+        nreg = rng.randint(1, 4)
+        pos = 0
+        for _ in range(nreg):
+            pos += rng.choice([0, 1, 7, 511, 512, 4095, 4096, 4097, rng.randint(0, 9000)] if not big else [0, 5000, B - 1, B + 1])
+            cnt = rng.choice([0, 1, 5, 511, 512, 513, rng.randint(0, 1500)] if not big else [1, 4096, B // 2, B + 3])
+            sparse.append((pos, cnt))
+            pos += cnt
+        filesize = pos + rng.choice([0, 0, 1, 4096, 5000, rng.randint(0, 9000)])
+        recsize = sum(c for _, c in sparse) + rng.choice([0, 0, 0, 1, 600])
+    else:
+        recsize = rng.choice([0, 1, 5, 511, 512, 513, 1000, rng.randint(0, 3000)] if not big else [B - 1, B, B + 1, 2 * B + 17])
+        filesize = recsize
+    hdr = c12_tools.tar_header(b"m%d" % rng.randint(0, 99), recsize, sparse, filesize)
+    pad = (512 - recsize % 512) % 512
+    cut = rng.random()
+    if cut < 0.12 and recsize > 0:
+        body_len, tail = rng.randint(0, recsize - 1), b""         # the record ends early: SQFS_ERROR_CORRUPTED
+        pad = 0
+    else:
+        body_len = recsize
+        tail = rng.choice([b"", b"\0" * 1024, b"\0" * 100, b"\0" * 512, bytes([0, 0, 7, 0]) * 25, b"\0" * 1030])
+        if cut < 0.2:
+            pad, tail = rng.randint(0, pad), b""                  # the padding ends early
+    if body_len <= 64:
+        body = hexdata(bytes(rng.randint(0, 255) for _ in range(body_len)))
+    else:
+        body = "g%d:%d:%d" % (rng.randint(0, 999), body_len, rng.choice([0, 0, 3]))
+    d = "+".join([hdr.hex(), body, hexdata(b"\0" * pad + tail)])
+    ops, left = [], filesize
+    for _ in range(rng.randint(1, 8)):
+        sz = rng.choice([1, 3, 511, 512, 513, 4095, 4096, 4097, around(rng, max(1, left), 1), rng.randint(1, filesize + 5)])
+        if not big:
+            sz = min(sz, 12000)
+        ops.append(rng.choice(["R%d", "R%d", "S%d", "P%d", "g%d"]) % sz)
+        left = max(0, left - sz)
+    if rng.random() < 0.5:
+        ops.append("R%d" % (filesize + 1))                         # drain to the end of the member
+    fl = rng.choice("sn")
+    hard = rng.random() < 0.2
+    sc = gen_script(rng, 40 if not big else 100, max(B, 8) if not big else B, hard)
+    sp = ",".join("%d:%d" % x for x in sparse) if sparse else "-"
+    o = ",".join(ops)
+    if BX is not None:
+        return {"kind": "xtarstrm", "B": B, "script": sc,
+                "line": "xtarstrm %d %d %s %s %d %d %s %s %s" % (B, BX, fl, d, recsize, filesize, sp, o, script_tok(sc)),
+                "full": "xtarstrm %d %d %s %s %d %d %s %s -" % (B, BX, fl, d, recsize, filesize, sp, o),
+                "args": (d, recsize, filesize, sparse, ops)}
+    return {"kind": "tarstrm", "B": B, "script": sc,
+            "line": "tarstrm %d %s %s %d %d %s %s %s" % (B, fl, d, recsize, filesize, sp, o, script_tok(sc)),
+            "full": "tarstrm %d %s %s %d %d %s %s -" % (B, fl, d, recsize, filesize, sp, o),
+            "spec": "tarspec %d %s %d %d %s %s" % (B, d, recsize, filesize, sp, o),
+            "args": (d, recsize, filesize, sparse, ops)}
+
+
+def fixed_scenarios(B, small):
+    """scenarios that do not depend on the seed: an EINTR run of 200 at the first call of each of the five retry loops
+    (pread, pwrite, write, ftruncate, read), so that a retry cap is met on every run"""
+    i200 = ",".join(["i"] * 200)
+    lines = ["readat 0102030405 1 3 %s" % i200,
+             "writeat 0102 1 aabbcc %s" % i200,
+             "ostream n d0102,h5,f %s" % i200,
+             "ostream s h5,f %s" % i200,
+             "ostream s d01,h2000,d02,f p0,%s" % i200,
+             "istream %d s 61620a63 L0,R2 %s" % (B, i200)]
+    for b in small:
+        lines.append("istream %d n 61620a630a6465 g0,L7,R1,L0 %s,p0,%s" % (b, i200, i200))
+    return lines
 
 
 def gen_xistream(rng, B, BX, big):
@@ -312,11 +432,12 @@ def observable(kind, out):
     """what a caller can see: everything except the number of script events left, the syscall trace and (for the
     istream) the private buffer indices"""
     o = TAIL.sub("", out)
-    if kind in ("istream", "xistream"):
+    if kind in ("istream", "xistream", "tarstrm", "xtarstrm"):
         o = re.sub(r"x?st=\S+ ", "", o)
-        o = re.sub(r" size=\d+ sparse=\d+", "", o)
+        o = re.sub(r" size=\d+ sparse=\d+ pos=\d+", "", o)
     if kind in ("ostream", "xostream"):
         o = re.sub(r" size=\d+", "", o)          # `file->size` is write-only bookkeeping (double counts under NO_SPARSE)
+        o = re.sub(r" pos=\d+", "", o)           # descriptor position: private (shown for the correspondence only)
     return o
 
 
@@ -345,6 +466,10 @@ def never_short(sc):
                 bad.append("write_at returned 0 without the complete write / size update")
         elif not is_hard(sc["script"]):
             bad.append("write_at failed without a hard error")
+    elif sc["kind"] == "ostream" and sc["args"][0] in "SN":
+        pass          # continue-after-failure client: correspondence only (no tool calls a stream again after a failure)
+    elif sc["kind"] in ("tarstrm", "xtarstrm"):
+        bad += tar_monitor(sc, out)
     elif sc["kind"] == "ostream":
         fl, ops = sc["args"]
         if kv.get("rc") == "0@%d" % len(ops):
@@ -373,45 +498,102 @@ def never_short(sc):
     return bad
 
 
+def tar_monitor(sc, out):
+    """independent re-computation for the member stream: as long as the client only reads (R), the bytes it gets are
+    the expanded member content in order (data regions from the record, zeros in the holes), for every script; a
+    read may fail or come up short only under a hard script or when the record is cut short"""
+    d, recsize, filesize, sparse, ops = sc["args"]
+    data = parse_data(d)
+    toks = TAIL.sub("", out).split(" ")
+    if not toks or toks[0] != "n1=0":
+        if not is_hard(sc["script"]) and len(data) >= 512:
+            return ["it_next did not deliver the member header although no hard error was scripted: %s" % toks[:1]]
+        return []
+    record = data[512:512 + recsize]
+    content = expand_member(record + b"\0" * (recsize - len(record)), filesize, sparse)
+    # bytes of the expanded content that are backed by record bytes which really exist in the input
+    avail_rec = len(record)
+    bad, pos, rec_used = [], 0, 0
+    for op, tok in zip(ops, toks[1:]):
+        if op[0] != "R":
+            break
+        size = int(op[1:])
+        m = re.match(r"R(-?\d+)(?::(\S+))?$", tok)
+        if not m:
+            bad.append("unparsable observation %r" % tok)
+            break
+        n = int(m.group(1))
+        if n < 0:
+            if not is_hard(sc["script"]) and avail_rec >= recsize:
+                bad.append("member read failed (%d) although the record is complete and no hard error was scripted" % n)
+            break
+        exp = content[pos:pos + min(size, 0x7FFFFFFF)]
+        if m.group(2) != dtok(content[pos:pos + n]) or (n != len(exp) and not is_hard(sc["script"]) and avail_rec >= recsize):
+            bad.append("member read %s at offset %d returned %s, expected %d bytes %s" % (op, pos, tok, len(exp), dtok(exp)))
+            break
+        pos += n
+    return bad
+
+
 # ------------------------------------------------------------------------------------------------ builds
+BUFSZ_DEF = re.compile(r"^([ \t]*#[ \t]*define[ \t]+BUFSZ)\b.*$", re.M)
+LAST_INCLUDE = re.compile(r"^[ \t]*#[ \t]*include\b.*$", re.M)
+
+
+def with_bufsz(text, val):
+    """the same source text with BUFSZ = val: every `#define BUFSZ ...` in the file is replaced; when the file no longer
+    defines it itself (moved to a header), `#undef`/`#define` lines are placed after its last #include.  Whether the
+    result really has the wanted buffer size is checked afterwards by asking the built harness (bufsz/xbufsz)."""
+    if BUFSZ_DEF.search(text):
+        return BUFSZ_DEF.sub(lambda m: "%s (%d)" % (m.group(1), val), text)
+    incs = list(LAST_INCLUDE.finditer(text))
+    at = incs[-1].end() if incs else 0
+    return text[:at] + "\n#undef BUFSZ\n#define BUFSZ (%d)\n" % val + text[at:]
+
+
 def build_harnesses(ctx):
     """→ ({B: harness path}, B of the working tree, small Bs, {B: (BX istream, BX ostream)})"""
-    lib = ctx.build_lib(tag="c12", exclude=(ISTREAM_C, OSTREAM_C, XISTREAM_C, XOSTREAM_C))
+    lib = ctx.build_lib(tag="c12", exclude=(ISTREAM_C, OSTREAM_C, XISTREAM_C, XOSTREAM_C, TARITER_C))
     wrap = ["-Wl," + ",".join("--wrap=" + w for w in WRAP)]
     hs, bx = {}, {}
+
+    def sizes(h, what):
+        r = vlib.sh([str(h)], input="bufsz\nxbufsz\n", env=ctx.san_env(), timeout=HARNESS_TIMEOUT)
+        try:
+            l = r.stdout.split()
+            return int(l[0]), int(l[1]), int(l[2])
+        except (ValueError, IndexError):
+            raise vlib.CheckFailure("%s did not report BUFSZ: rc=%s %r %r" % (what, r.returncode, r.stdout, r.stderr[-500:]))
     real = ctx.cc("h_c12", HARNESS_SRC, flags=wrap, libs=[str(lib)] + vlib.CODEC_LIBS)
-    r = vlib.sh([str(real)], input="bufsz\nxbufsz\n", env=ctx.san_env(), timeout=HARNESS_TIMEOUT)
-    try:
-        l = r.stdout.split()
-        B, bx_i, bx_o = int(l[0]), int(l[1]), int(l[2])
-    except (ValueError, IndexError):
-        raise vlib.CheckFailure("harness did not report BUFSZ: %r %r" % (r.stdout, r.stderr[-500:]))
+    B, bx_i, bx_o = sizes(real, "harness")
     hs[B] = real
     bx[B] = (bx_i, bx_o)
-    pat = re.compile(r"(#define\s+BUFSZ\s+)\(?\s*\d+\s*\)?")
     srcs = {n: (vlib.REPO / n).read_text() for n in (ISTREAM_C, XISTREAM_C, XOSTREAM_C)}
     small = []
-    if all(len(pat.findall(t)) == 1 for t in srcs.values()):
-        for b in SMALL_B:
-            flags = list(wrap)
-            for name, macro, val in ((ISTREAM_C, "C12_ISTREAM_SRC", b), (XISTREAM_C, "C12_XISTREAM_SRC", SMALL_BX[b][0]),
-                                     (XOSTREAM_C, "C12_XOSTREAM_SRC", SMALL_BX[b][1])):
-                p = ctx.scratch / ("%s_B%d.c" % (name.replace("/", "_")[:-2], b))
-                p.write_text(pat.sub(lambda m: "%s(%d)" % (m.group(1), val), srcs[name]))
-                flags += ['-D%s="%s"' % (macro, p), "-I%s" % (vlib.REPO / name).parent]
-            hs[b] = ctx.cc("h_c12_B%d" % b, HARNESS_SRC, flags=flags, libs=[str(lib)] + vlib.CODEC_LIBS)
-            bx[b] = SMALL_BX[b]
-            small.append(b)
-    else:
-        ctx.log("a stream source no longer defines BUFSZ as a single literal: small-buffer variants skipped")
+    for b in SMALL_B:
+        flags = list(wrap)
+        for name, macro, val in ((ISTREAM_C, "C12_ISTREAM_SRC", b), (XISTREAM_C, "C12_XISTREAM_SRC", SMALL_BX[b][0]),
+                                 (XOSTREAM_C, "C12_XOSTREAM_SRC", SMALL_BX[b][1])):
+            p = ctx.scratch / ("%s_B%d.c" % (name.replace("/", "_")[:-2], b))
+            p.write_text(with_bufsz(srcs[name], val))
+            flags += ['-D%s="%s"' % (macro, p), "-I%s" % (vlib.REPO / name).parent]
+        hs[b] = ctx.cc("h_c12_B%d" % b, HARNESS_SRC, flags=flags, libs=[str(lib)] + vlib.CODEC_LIBS)
+        got = sizes(hs[b], "small-buffer harness B=%d" % b)
+        if got != (b, SMALL_BX[b][0], SMALL_BX[b][1]):
+            # never continue without the small-buffer builds: they are what reaches every buffer boundary
+            raise vlib.CheckFailure("small-buffer build wanted BUFSZ %s but the code has %s: the stream sources no longer take "
+                                    "their buffer size from a BUFSZ macro; tools/checks/c12.py (with_bufsz) must follow the change"
+                                    % ((b,) + SMALL_BX[b], got))
+        bx[b] = SMALL_BX[b]
+        small.append(b)
     return hs, B, small, bx
 
 
-def run_harness(ctx, h, lines):
+def run_harness(ctx, h, lines, fdtype="n"):
     """→ (outputs, crash) ; a sanitizer abort / signal / timeout is a result, located by the number of lines answered"""
     text = "\n".join(lines) + "\n"
     try:
-        r = vlib.sh([str(h)], input=text, env=ctx.san_env(), timeout=HARNESS_TIMEOUT)
+        r = vlib.sh([str(h)], input=text, env=ctx.san_env({"C12_FDTYPE": fdtype}), timeout=HARNESS_TIMEOUT)
     except subprocess.TimeoutExpired as e:
         out = (e.stdout or b"")
         out = out.decode() if isinstance(out, bytes) else out
@@ -422,27 +604,32 @@ def run_harness(ctx, h, lines):
     return out, None
 
 
-def run_parallel(ctx, h, lines, jobs):
-    """split the scenario lines over `jobs` harness processes (scenarios are independent)"""
+def run_parallel(ctx, h, lines, jobs, fdrot=0):
+    """split the scenario lines over harness processes (scenarios are independent); each process hands the streams a
+    different kind of descriptor (FDTYPES), at most `jobs` run at a time"""
     if not lines:
         return [], None
-    jobs = max(1, min(jobs, len(lines) // 50 or 1))
-    chunks = [lines[i::jobs] for i in range(jobs)]
-    res = [None] * jobs
+    nproc = max(1, min(len(FDTYPES), len(lines) // 50 or 1))
+    chunks = [lines[i::nproc] for i in range(nproc)]
+    res = [None] * nproc
+    sem = threading.Semaphore(jobs)
 
     def work(i):
-        res[i] = run_harness(ctx, h, chunks[i])
+        with sem:
+            res[i] = run_harness(ctx, h, chunks[i], FDTYPES[(i + fdrot) % len(FDTYPES)])
+    jobs = nproc
     ts = [threading.Thread(target=work, args=(i,)) for i in range(jobs)]
     [t.start() for t in ts]
     [t.join() for t in ts]
     out = [None] * len(lines)
     for i in range(jobs):
         o, crash = res[i]
+        fd = FDTYPES[(i + fdrot) % len(FDTYPES)]
         if crash:
             k = crash[1]
-            return None, (crash[0], chunks[i][min(k, len(chunks[i]) - 1)], crash[2])
+            return None, (crash[0] + " fd=" + fd, chunks[i][min(k, len(chunks[i]) - 1)], crash[2])
         for j, l in enumerate(o):
-            out[i + j * jobs] = l
+            out[i + j * jobs] = (l, fd)
     return out, None
 
 
@@ -474,7 +661,7 @@ def run_model(ctx, lines, jobs):
 
 
 # ------------------------------------------------------------------------------------------------ in-process part
-OPS_FIELD = {"ostream": 2, "istream": 4, "xistream": 5, "xostream": 3}
+OPS_FIELD = {"ostream": 2, "istream": 4, "xistream": 5, "xostream": 3, "tarstrm": 7, "xtarstrm": 8}
 
 
 def parse_line(l, B, small, bx):
@@ -486,7 +673,7 @@ def parse_line(l, B, small, bx):
     kind = w[0]
     script = [] if w[-1] == "-" else w[-1].split(",")
     try:
-        b = int(w[1]) if kind in ("istream", "xistream") else 0
+        b = int(w[1]) if kind in ("istream", "xistream", "tarstrm", "xtarstrm") else 0
         sc = {"kind": kind, "B": b, "script": script, "line": l, "full": " ".join(w[:-1] + ["-"]), "args": None}
         if kind == "readat":
             sc["args"] = (w[1], int(w[2]), int(w[3]))
@@ -498,6 +685,20 @@ def parse_line(l, B, small, bx):
             sc["spec"] = "spec %s %s %s" % (w[1], w[3], w[4])
             if b != B and b not in small:
                 return None
+            ops = [] if w[4] == "-" else w[4].split(",")
+            if ops and all(x[0] == "L" for x in ops):
+                sc["lines"] = "lines %s %s" % (",".join(x[1:] for x in ops), w[3])
+        elif kind == "tarstrm":
+            if b != B and b not in small:
+                return None
+            sc["spec"] = "tarspec %s %s %s %s %s %s" % (w[1], w[3], w[4], w[5], w[6], w[7])
+            sparse = [] if w[6] == "-" else [tuple(int(v) for v in e.split(":")) for e in w[6].split(",")]
+            sc["args"] = (w[3], int(w[4]), int(w[5]), sparse, [] if w[7] == "-" else w[7].split(","))
+        elif kind == "xtarstrm":
+            if b not in bx or bx[b][0] != int(w[2]):
+                return None
+            sparse = [] if w[7] == "-" else [tuple(int(v) for v in e.split(":")) for e in w[7].split(",")]
+            sc["args"] = (w[4], int(w[5]), int(w[6]), sparse, [] if w[8] == "-" else w[8].split(","))
         elif kind == "xistream":
             sc["spec"] = "xspec %s %s %s %s" % (w[1], w[2], w[4], w[5])
             if b not in bx or bx[b][0] != int(w[2]):
@@ -518,37 +719,52 @@ def parse_line(l, B, small, bx):
 def judge(sc):
     """(property failures, correspondence broken?) for a scenario that has impl / implfull / model / specout"""
     kind, hard = sc["kind"], is_hard(sc["script"])
-    if sc["impl"] in ("overrun", "bad-op", "bad-B"):
-        return ["harness answered %r" % sc["impl"]], False
+    if sc["impl"] in ("overrun", "bad-op", "bad-B") or "bad-hdr" in sc["impl"] or "bad-open" in sc["impl"]:
+        return ["harness answered %r" % sc["impl"][:200]], False
     failures = never_short(sc)
     if not hard and sc.get("implfull") is not None and observable(kind, sc["impl"]) != observable(kind, sc["implfull"]):
         failures.append("result under short counts/EINTR differs from the implementation's own result when every call completes in full")
     if not hard and sc.get("specout") is not None and observable(kind, sc["impl"]) != sc["specout"]:
-        # ideal-stream specification (no OS at all) evaluated against what the implementation let the client observe
-        failures.append("client observations differ from the ideal-stream specification: spec=%s" % sc["specout"][:300])
+        if kind == "istream":
+            # ideal-stream specification (no OS, no buffer) evaluated against what the implementation let the client observe
+            failures.append("client observations differ from the ideal-stream specification: spec=%s" % sc["specout"][:300])
+        elif observable(kind, sc["model"]) != sc["specout"]:
+            # xistream / tarstrm: the "spec" line is the *model* of the adapter over the ideal stream, so it says nothing
+            # about the code beyond impl ≠ model (reported as a correspondence failure below); but the model under the
+            # script must equal it — that is the theorem
+            failures.append("the model under the script differs from the model over the ideal stream, which the theorems exclude "
+                            "(driver or check infrastructure broken): spec=%s" % sc["specout"][:300])
+    if not hard and sc.get("linesout") is not None:
+        # the byte-at-a-time scanner (Spec.nextLine: no stream, no buffer size) against the lines the implementation returned
+        want = sc["linesout"].split(" ") if sc["linesout"] else []
+        got = TAIL.sub("", sc["impl"]).split(" ")[:len(want)]
+        if got != want:
+            failures.append("lines differ from the byte-at-a-time scanner: scanner=%s" % sc["linesout"][:300])
     return failures, (not failures and sc["impl"] != sc["model"])
 
 
-def evaluate(ctx, hs, B, scs):
+def evaluate(ctx, hs, B, scs, fd="n"):
     """fill impl / implfull / model / specout for a few scenarios (sequentially); returns False on a crash"""
     groups = {}
     for sc in scs:
         groups.setdefault(sc["B"] if sc["kind"] in STREAMK else B, []).append(sc)
     for key, g in groups.items():
         lines = [sc["line"] for sc in g] + [sc["full"] for sc in g if not is_hard(sc["script"])]
-        out, crash = run_harness(ctx, hs[key], lines)
+        out, crash = run_harness(ctx, hs[key], lines, fd)
         if crash:
             return False
-        it = iter(out[len(g):])
+        it = iter(out[len(g):])           # run_harness has checked len(out) == len(lines)
         for sc, o in zip(g, out):
             sc["impl"], sc["implfull"] = o, (next(it) if not is_hard(sc["script"]) else None)
-    mlines = [sc["line"] for sc in scs] + [sc["spec"] for sc in scs if sc.get("spec") and not is_hard(sc["script"])]
+    extra = [(sc, k) for k in ("spec", "lines") for sc in scs if sc.get(k) and not is_hard(sc["script"])]
+    mlines = [sc["line"] for sc in scs] + [sc[k] for sc, k in extra]
     mout = ctx.driver(["c12"], "\n".join(mlines) + "\n", timeout=1500)
-    it = iter(mout[len(scs):])
+    if len(mout) != len(mlines):
+        raise vlib.CheckFailure("model driver answered %d of %d lines" % (len(mout), len(mlines)))
     for sc, o in zip(scs, mout):
         sc["model"] = o
-        if sc.get("spec") and not is_hard(sc["script"]):
-            sc["specout"] = next(it)
+    for (sc, k), o in zip(extra, mout[len(scs):]):
+        sc[k + "out"] = o
     return True
 
 
@@ -572,7 +788,7 @@ def shrink(ctx, hs, B, small, bx, sc, rounds=8):
                 cands.append(" ".join(w[:f] + [",".join(t) if t else "-"] + w[f + 1:]))
         cands = cands[:120]
         scs = [x for x in (parse_line(c, B, small, bx) for c in cands) if x is not None]
-        if not scs or not evaluate(ctx, hs, B, scs):
+        if not scs or not evaluate(ctx, hs, B, scs, sc.get("fd") or "n"):
             break
         nxt = None
         for x in scs:
@@ -596,14 +812,14 @@ def classify(ctx, sc, stats, env=None):
     stats[which] += 1
     if stats[which] > 5:
         return True
-    orig = sc["line"]
+    orig, orig_fd = sc["line"], sc.get("fd") or "n"
     try:
         sc = shrink(ctx, *env, sc) if env else sc
         failures, corr = judge(sc)
     except Exception as e:                       # shrinking is best effort
         ctx.log("shrink failed:", e)
     rp = {"line": sc["line"], "full": sc["full"], "spec": sc.get("spec"), "B": sc["B"], "impl": sc["impl"],
-          "implfull": sc.get("implfull"), "model": sc["model"], "original_line": orig}
+          "implfull": sc.get("implfull"), "model": sc["model"], "original_line": orig, "fd": orig_fd}
     if failures:
         rp["failures"] = failures
         ctx.violation("split:%s:%s" % (kind, vlib.sha(sc["line"])[:12]),
@@ -630,20 +846,31 @@ def inprocess(ctx, hs, B, small, bx):
                 if sc is not None:
                     scen.append(sc)
                     ncorpus += 1
+    nfixed = 0
+    for l in fixed_scenarios(B, small):
+        sc = parse_line(l, B, small, bx)
+        if sc is None:
+            raise vlib.CheckFailure("fixed scenario does not parse: %s" % l[:200])
+        scen.append(sc)
+        nfixed += 1
     n_small = 2500 if quick else 60000
     n_big = 30 if quick else 700
-    for _ in range(n_small):
+    for k in range(n_small):
         scen.append(gen_readat(rng, False))
         scen.append(gen_writeat(rng, False))
         scen.append(gen_ostream(rng, False))
         for b in small:
             scen.append(gen_istream(rng, b, False))
-        b = rng.choice(small) if small else None
-        if b is not None:
-            scen.append(gen_xistream(rng, b, bx[b][0], False))
-            scen.append(gen_xostream(rng, b, bx[b][1], False))
-    for _ in range(n_big):
-        if rng.random() < 0.4:
+        b = rng.choice(small)
+        scen.append(gen_xistream(rng, b, bx[b][0], False))
+        scen.append(gen_xostream(rng, b, bx[b][1], False))
+        if k % 2 == 0:
+            scen.append(gen_tarstrm(rng, rng.choice(small + [B]), False))
+        if k % 8 == 1:
+            b = rng.choice(small + [B])
+            scen.append(gen_tarstrm(rng, b, False, bx[b][0]))
+    for k in range(n_big):
+        if k % 2 == 0:
             scen.append(gen_xistream(rng, B, bx[B][0], True))
             scen.append(gen_xostream(rng, B, bx[B][1], True))
         scen.append(gen_readat(rng, True))
@@ -651,7 +878,8 @@ def inprocess(ctx, hs, B, small, bx):
         scen.append(gen_ostream(rng, True))
         scen.append(gen_istream(rng, B, True))
         scen.append(gen_istream(rng, B, True))
-    jobs = 3 if quick else 6          # scenarios are independent; kept moderate (other checks run concurrently)
+        scen.append(gen_tarstrm(rng, B, True))
+    jobs = 3 if quick else 4          # scenarios are independent; kept moderate (other checks run concurrently)
     # group by harness binary
     groups = {}
     for sc in scen:
@@ -663,30 +891,33 @@ def inprocess(ctx, hs, B, small, bx):
         h = hs[key]
         lines = [sc["line"] for sc in g]
         fulls = [sc["full"] for sc in g if not is_hard(sc["script"])]
-        out, crash = run_parallel(ctx, h, lines + fulls, jobs)
+        out, crash = run_parallel(ctx, h, lines + fulls, jobs, fdrot=ctx.seed + len(groups))
         if crash:
             what, line, err = crash
             ctx.violation("crash:%s" % vlib.sha(line)[:12], "real code aborted (%s) on scenario: %s :: %s" % (what, line[:300], err[-600:]),
-                          {"line": line, "B": key, "stderr": err})
+                          {"line": line, "B": key, "stderr": err, "fd": what.rsplit("fd=", 1)[-1] if "fd=" in what else "n"})
             crashed = True
             continue
+        if len(out) != len(lines) + len(fulls) or any(o is None for o in out):
+            raise vlib.CheckFailure("harness B=%s answered %d of %d lines" % (key, len([o for o in out if o is not None]), len(lines) + len(fulls)))
         it = iter(out[len(lines):])
-        for sc, o in zip(g, out):
-            sc["impl"] = o
-            sc["implfull"] = next(it) if not is_hard(sc["script"]) else None
+        for sc, (o, fd) in zip(g, out):
+            sc["impl"], sc["fd"] = o, fd          # fd: the kind of descriptor the streams of this scenario were given
+            sc["implfull"], sc["fdfull"] = next(it) if not is_hard(sc["script"]) else (None, None)
     if crashed:
-        return scen, stats, ncorpus
+        return scen, stats, ncorpus, nfixed
+    extra = [(sc, k) for k in ("spec", "lines") for sc in scen if sc.get(k) and not is_hard(sc["script"])]
     mlines = [sc["line"] for sc in scen]
-    slines = [sc["spec"] for sc in scen if sc["kind"] in ("istream", "xistream") and not is_hard(sc["script"])]
-    mout = run_model(ctx, mlines + slines, jobs)
-    it = iter(mout[len(mlines):])
+    mout = run_model(ctx, mlines + [sc[k] for sc, k in extra], jobs)       # run_model checks the line count
+    if len(mout) != len(mlines) + len(extra):
+        raise vlib.CheckFailure("model driver answered %d of %d lines" % (len(mout), len(mlines) + len(extra)))
     for sc, o in zip(scen, mout):
         sc["model"] = o
-        if sc["kind"] in ("istream", "xistream") and not is_hard(sc["script"]):
-            sc["specout"] = next(it)
+    for (sc, k), o in zip(extra, mout[len(mlines):]):
+        sc[k + "out"] = o
     for sc in scen:
         classify(ctx, sc, stats, (hs, B, small, bx))
-    return scen, stats, ncorpus
+    return scen, stats, ncorpus, nfixed
 
 
 def run(ctx):
@@ -697,7 +928,16 @@ def run(ctx):
     hs, B, small, bx = build_harnesses(ctx)
     ctx.log("istream BUFSZ of the working tree = %d; small-buffer variants %s" % (B, small))
     t0 = time.time()
-    scen, stats, ncorpus = inprocess(ctx, hs, B, small, bx)
+    # what the descriptors handed to the streams really are in this environment (fstat / isatty of the harness)
+    fdkinds = {}
+    for t in FDTYPES:
+        out, crash = run_harness(ctx, hs[B], ["fdtype"], t)
+        if crash or len(out) != 1:
+            raise vlib.CheckFailure("harness cannot create a stream descriptor of type %r: %s" % (t, crash))
+        fdkinds[t] = out[0]
+    if len({v.split(" ", 1)[1] for v in fdkinds.values()}) < 4:
+        raise vlib.CheckFailure("the harness offers fewer than 4 distinct kinds of stream descriptors: %s" % fdkinds)
+    scen, stats, ncorpus, nfixed = inprocess(ctx, hs, B, small, bx)
     t_in = time.time() - t0
     done = [sc for sc in scen if "impl" in sc and "model" in sc]
     consumed = 0
@@ -713,8 +953,33 @@ def run(ctx):
             nontrivial.add(sc["line"])
         kk = sc["kind"] + (":B=%d" % sc["B"] if sc["kind"] in STREAMK else "")
         kinds[kk] = kinds.get(kk, 0) + 1
-    ctx.log("in-process: %d scenarios, %d with ≥1 scripted event consumed, %d events fired %s, %.1fs" % (
-        len(done), len(nontrivial), consumed, evhist, t_in))
+    longest = 0
+    for sc in done:
+        m = TAIL.search(sc["impl"])
+        used = len(sc["script"]) - int(m.group(1)) if m else 0
+        run = 0
+        for e in sc["script"][:used]:
+            run = run + 1 if e == "i" else 0
+            longest = max(longest, run)
+    nspec = sum(1 for sc in done if sc.get("specout") is not None)
+    nlines = sum(1 for sc in done if sc.get("linesout") is not None)
+    nfull = sum(1 for sc in done if sc.get("implfull") is not None)
+    ctx.log("in-process: %d scenarios, %d with ≥1 scripted event consumed, %d events fired %s, longest EINTR run consumed %d, "
+            "%d vs own unperturbed run, %d vs ideal-stream spec, %d vs line scanner, %.1fs" % (
+                len(done), len(nontrivial), consumed, evhist, longest, nfull, nspec, nlines, t_in))
+    if not any(v["key"].startswith("crash:") for v in ctx.violations):
+        # floors: a part of the check that evaluated nothing is a failure of the check, not a pass
+        need = ["readat", "writeat", "ostream", "istream:B=%d" % B, "xistream:B=%d" % B, "xostream:B=%d" % B, "tarstrm:B=%d" % B,
+                "xtarstrm:B=%d" % B]
+        need += ["istream:B=%d" % b for b in small] + ["tarstrm:B=%d" % b for b in small] + ["xtarstrm:B=%d" % b for b in small]
+        lack = [k for k in need if kinds.get(k, 0) < (10 if ctx.quick() else 100)]
+        lack += ["xistream (small buffers)"] if sum(kinds.get("xistream:B=%d" % b, 0) for b in small) < 200 else []
+        lack += ["xostream (small buffers)"] if sum(kinds.get("xostream:B=%d" % b, 0) for b in small) < 200 else []
+        if lack or len(done) != len(scen) or min(evhist.values()) == 0 or longest < 200 or nspec < 500 or nlines < 50 \
+                or nfull < 1000 or len(nontrivial) < len(done) // 2 or (ncorpus == 0 and (vlib.CORPUS / "C12").exists()):
+            raise vlib.CheckFailure("in-process part evaluated too little: missing/too few %s; %d of %d scenarios evaluated; events %s; "
+                                    "longest EINTR run %d; spec %d; lines %d; full %d; non-trivial %d; corpus %d" % (
+                                        lack, len(done), len(scen), evhist, longest, nspec, nlines, nfull, len(nontrivial), ncorpus))
     # ---- tool level
     t1 = time.time()
     tres, tagg, tskipped = [], {}, []
@@ -734,9 +999,9 @@ def run(ctx):
             if tbad <= 5:
                 cfg = ",".join("%s=%s" % kv for kv in sorted(r["config"].items()))
                 ctx.violation("tool:%s:%s" % (r["scenario"], cfg),
-                              "%s under %s (feed %s, drain %s, shim seed %s): exit/sha256 %s differ from the unperturbed run's %s; stderr: %s" % (
-                                  r["scenario"], cfg, r["feed"], r["drain"], r["shim_seed"], r["pert"], r["base"], r["stderr"][-300:]),
-                              {k: r[k] for k in ("scenario", "config", "feed", "drain", "shim_seed", "seed", "base", "pert")})
+                              "%s under %s (feed %s, drain %s, %s, shim seed %s): exit/sha256 %s differ from the unperturbed run's %s; stderr: %s" % (
+                                  r["scenario"], cfg, r["feed"], r["drain"], "socket" if r["sock"] else "pipe", r["shim_seed"], r["pert"], r["base"], r["stderr"][-300:]),
+                              {k: r[k] for k in ("scenario", "config", "feed", "drain", "shim_seed", "seed", "sock", "base", "pert")})
     ctx.log("tool level: %d perturbed runs (%d with ≥1 short count/EINTR fired), %d differ, %d scenarios skipped, shim fired %s, %.1fs" % (
         len(tres), sum(1 for r in tres if r["fired"] > 0), tbad, len(tskipped),
         {op: {k: v for k, v in d.items() if k in ("short", "eintr")} for op, d in tagg.items()}, t_tools))
@@ -762,8 +1027,14 @@ def run(ctx):
         "script_events_fired": evhist,
         "script_events_consumed": consumed,
         "corpus_scenarios": ncorpus,
+        "fixed_scenarios": nfixed,
+        "longest_eintr_run_consumed": longest,
+        "compared_with_own_unperturbed_run": nfull,
+        "compared_with_ideal_stream_spec": nspec,
+        "compared_with_line_scanner": nlines,
+        "stream_descriptor_kinds": fdkinds,
         "istream_bufsz": B,
-        "samples": [{"scenario": sc["line"][:300], "impl": sc["impl"][:300], "model": sc["model"][:300]} for sc in done[ncorpus:ncorpus + 4000:997]],
+        "samples": [{"scenario": sc["line"][:300], "impl": sc["impl"][:300], "model": sc["model"][:300]} for sc in done[ncorpus + nfixed:ncorpus + nfixed + 4000:797]],
         "disagreements_checked": stats["property_failures"] + stats["corr_failures"] + tbad,
         "inprocess_scenarios_per_s": round(len(done) / max(t_in, 1e-3), 1),
     })
@@ -796,7 +1067,7 @@ def replay(ctx, path):
     if key not in hs:
         key = B
     lines = [rp["line"]] + ([rp["full"]] if rp.get("full") else [])
-    out, crash = run_harness(ctx, hs[key], lines)
+    out, crash = run_harness(ctx, hs[key], lines, rp.get("fd") or "n")
     model = ctx.driver(["c12"], "\n".join(lines + ([rp["spec"]] if rp.get("spec") else [])) + "\n")
     print("scenario:", rp["line"][:1000])
     print("impl    :", out, "crash:", crash)
